@@ -10,6 +10,7 @@ from __future__ import annotations
 
 import difflib
 import os
+import re
 
 from .. import common, corpus, pool, workloads
 from ..libgen import gen
@@ -79,6 +80,28 @@ def run_abs_pair(sp):
         outs = []
         other = os.path.join(cwd, "elsewhere")
         os.makedirs(other)
+        # the other directory is not empty: it holds stale files named like every input the run can reach (description,
+        # splicer files, headers), with other contents -- with absolute arguments none of them may be looked at
+        decoys = {}
+        for rel, text in (sp.get("files") or {}).items():
+            decoys[os.path.basename(rel)] = text
+        for ldir in (sp.get("links") or {}).values():
+            if os.path.isdir(ldir):
+                for fn in os.listdir(ldir):
+                    fp = os.path.join(ldir, fn)
+                    if os.path.isfile(fp) and os.path.getsize(fp) < 400000:
+                        try:
+                            decoys.setdefault(fn, open(fp, errors="replace").read())
+                        except OSError:
+                            pass
+        for fn, text in decoys.items():
+            if "splicer begin" in text:
+                text = "\n".join(ln + ("\nvf_decoy_line_from_the_current_directory" if "splicer begin" in ln else "") for ln in text.split("\n"))
+            else:
+                text = "vf decoy: stale file in the current directory\n" + text[: len(text) // 2]
+            for sub in ("", "work", "input"):
+                os.makedirs(os.path.join(other, sub), exist_ok=True)
+                open(os.path.join(other, sub, fn), "w").write(text)
         for runcwd in (cwd, other):
             p = subprocess.run([sys.executable, "-c", "import shroud.main as m; m.main()"] + argv, cwd=runcwd,
                                env=env, capture_output=True, text=True, timeout=120)
@@ -187,7 +210,20 @@ def main(rec):
                           "%s under %s: %s\n%s" % (name, pname, fn, what), {"name": name, "pert": pname})
 
     # ---- (a2) same absolute paths, different current directory
-    cw = allspecs if thorough else [s for i, s in enumerate(allspecs) if i % 3 == common.seed() % 3]
+    def _has_splicer_files(s_):
+        # descriptions whose 'splicer:' section names files that are searched along --path always take part
+        try:
+            if "--path" not in s_["argv"]:
+                return False
+            y_ = next((a for a in s_["argv"] if a.endswith(".yaml")), None)
+            text = (s_.get("files") or {}).get(y_)
+            if text is None and y_ and s_.get("links"):
+                top, _, rest_ = y_.partition("/")
+                text = open(os.path.join(s_["links"].get(top, ""), rest_), errors="replace").read()
+            return bool(text) and bool(re.search(r"^splicer:", text, re.M))
+        except (OSError, KeyError):
+            return False
+    cw = allspecs if thorough else [s for i, s in enumerate(allspecs) if i % 3 == common.seed() % 3 or _has_splicer_files(s)]
     cw = cw + [dict(s_, split_dirs=True, name=s_["name"] + "+split-dirs") for i, s_ in enumerate(cw) if thorough or i % 2 == 0]
     cres = pool.run_cases("vf.checks.c07", cw, func="run_abs_pair", timeout=300)
     for sp, rr in zip(cw, cres):
